@@ -110,7 +110,8 @@ class Printer:
             # anything that starts with a digit or a sign
             if xs[:1].isdigit() or xs[:1] in "+-.":
                 return "- " + xs
-            return "-" + xs
+            # the grammar has optional whitespace between the sign and a non-literal operand
+            return "-" + st.opt() + xs
         if k == "call":
             name, args = t[1], t[2]
             if not args:
